@@ -353,6 +353,9 @@ class Exec(HeapMixin, StreamMixin, Engine):
             if isf:
                 if self.check_defined:
                     self.check_then_assume(st, "def.div@%s" % self._where(n), b != 0, "def", n)
+                h = st.ghost.get("fdiv")     # opt-in (pack): value convention for x/0 when definedness is not the subject
+                if h is not None:
+                    return simp(h(self, st, a, b, n))
                 return simp(a / b)
             if self.check_defined:
                 self.check_then_assume(st, "def.idiv@%s" % self._where(n), b != 0, "def", n)
